@@ -20,6 +20,8 @@ import DPL.Proofs.ModelsScaler
 import DPL.Proofs.ModelsForest
 import DPL.Proofs.ModelsCompose3
 import DPL.Proofs.ModelsCompose4
+import DPL.Proofs.ModelsCompose7
+import DPL.Proofs.ModelsCompose8
 
 namespace DPL.C08
 open DPL DPL.PM
@@ -459,7 +461,10 @@ example (M : MechCall ℝ → ℝ → Measure ℝ) (hprob : ∀ c a, IsProbabili
 
 /-- **GaussianNB.fit is ε-DP (2ε when the replaced record changes label)**, set-function semantics (`Plan.lawOn`: every
 set of releases, no measurability condition on the count-repair post-processing): for every dataset and
-single-record replacement that keeps the label-presence pattern (the plan's only probe, C06), every metric-DP family -/
+single-record replacement that keeps the label-presence pattern (the plan's only probe, C06), every metric-DP family.
+`hocc` is NOT implied by `gnb_privloss` (`lossLe` assumes agreeing probes, it does not prove them) and cannot be
+dropped: `np.unique(y)` is released as `classes_` without noise, so the guarantee of the code is "ε-DP given that the
+set of classes present is public / unchanged by the replacement" — exactly this hypothesis -/
 theorem gnb_fit_dp (p : GnbParams ℝ) (hε : 0 < p.eps) (hd : 0 < p.d) (hb : ∀ j, nth p.lo j ≤ nth p.hi j)
     (hb' : ∀ j, j < p.d → nth p.lo j < nth p.hi j) (pre post : DS ℝ) (r r' : Rec ℝ)
     (hocc : ((List.range p.K).map fun c => (pre ++ r :: post).any (fun q => q.y == c)) =
@@ -477,6 +482,219 @@ example : ∃ (p : GnbParams ℝ) (pre post : DS ℝ) (r r' : Rec ℝ), 0 < p.ep
       ((List.range p.K).map fun c => (pre ++ r' :: post).any (fun q => q.y == c)) :=
   ⟨⟨1, [10], [11], 3, 1, 2⟩, [⟨[10], 0, []⟩, ⟨[11], 1, []⟩], [], ⟨[10], 0, []⟩, ⟨[10], 1, []⟩, by norm_num, by norm_num,
     by intro j; cases j <;> simp [nth] <;> norm_num, by intro j hj; interval_cases j; simp [nth]; norm_num, by decide, by decide⟩
+
+/-! ### general convention (vector inputs, input-aware side predicate), more estimators, kernels for the counts -/
+
+/-- the semantic step for an arbitrary per-invocation convention `(rel, wt)` (`lossLeW`) and a side predicate that sees
+the invocation AND its two inputs (`callsSatAt`), output-law form -/
+theorem plan_dp_of_lossLeW {δ ρ : Type} [MeasurableSpace ρ] (rel wt : Conv) (P : MechCall ℝ → ℝ → ℝ → Prop)
+    (M : MechCall ℝ → ℝ → Measure ℝ) (hM : MetricDPW rel wt P M) (D D' : δ) (p : Plan δ ℝ ρ) (B : ℝ)
+    (hp : lossLeW rel wt D D' p B) (hpr : p.probesAgree D D') (hc : p.callsSatAt P D D') (hm : p.Meas M)
+    (S : Set ρ) (hS : MeasurableSet S) :
+    p.law M D S ≤ ENNReal.ofReal (Real.exp B) * p.law M D' S :=
+  PM.plan_dp_of_lossLeW rel wt P M hM D D' p B hp hpr hc hm S hS
+
+/-- … set-function form (every plan, every set) -/
+theorem plan_lawOn_dp_of_lossLeW {δ ρ : Type} (rel wt : Conv) (P : MechCall ℝ → ℝ → ℝ → Prop)
+    (M : MechCall ℝ → ℝ → Measure ℝ) (hM : MetricDPW rel wt P M) (D D' : δ) (p : Plan δ ℝ ρ) (B : ℝ)
+    (hp : lossLeW rel wt D D' p B) (hpr : p.probesAgree D D') (hc : p.callsSatAt P D D') (S : Set ρ) :
+    p.lawOn M D S ≤ ENNReal.ofReal (Real.exp B) * p.lawOn M D' S :=
+  PM.lawOn_dp_of_lossLeW rel wt P M hM D D' p B hp hpr hc S
+
+/-- the geometric count mechanism (`geomKernel`: Geometric(ε, sensitivity 1) on the integer input, clamped to the
+configured bounds) is a probability family and metric-DP on integer inputs — from C01's `geom_dp` via
+`Discrete.geom_post_dp`; so is the class-dispatching family `codeKernel` (geometric classes ↦ `geomKernel`,
+"Laplace" ↦ `lapKernel`, every other class ↦ `truncLapKernel`) on invocations satisfying `CodeOk` -/
+theorem code_kernel_metricDP :
+    MetricDPW relDisp relDisp (fun c a b => 0 < c.eps ∧ GeomOk c a b) geomKernel ∧
+    MetricDPW relDisp relDisp CodeOk codeKernel ∧
+    (∀ c a, IsProbabilityMeasure (geomKernel c a)) ∧ (∀ c a, IsProbabilityMeasure (codeKernel c a)) :=
+  ⟨geomKernel_metricDPW, codeKernel_metricDPW, geomKernel_isProb, codeKernel_isProb⟩
+
+/-- GaussianNB with NO hypothesis on the mechanisms: counts from the geometric kernel, sums from the (truncated)
+Laplace kernel (`codeKernel`) -/
+theorem gnb_fit_dp_code (p : GnbParams ℝ) (hε : 0 < p.eps) (hd : 0 < p.d) (hb : ∀ j, nth p.lo j ≤ nth p.hi j)
+    (hb' : ∀ j, j < p.d → nth p.lo j < nth p.hi j) (pre post : DS ℝ) (r r' : Rec ℝ)
+    (hocc : ((List.range p.K).map fun c => (pre ++ r :: post).any (fun q => q.y == c)) =
+      ((List.range p.K).map fun c => (pre ++ r' :: post).any (fun q => q.y == c)))
+    (S : Set (GnbRelease ℝ)) :
+    (gnbPlan p).lawOn codeKernel (pre ++ r :: post) S ≤
+      ENNReal.ofReal (Real.exp ((if r.y = r'.y then 1 else 2) * p.eps)) *
+        (gnbPlan p).lawOn codeKernel (pre ++ r' :: post) S :=
+  PM.lawOn_dp_of_lossLeW _ _ _ _ codeKernel_metricDPW _ _ _ _
+    ((lossLeW_scalar _ _ _ _).mpr (gnb_privloss p hε.le hd hb pre post r r'))
+    (probesAgree_gnbPlan p _ _ hocc) (callsSatAt_gnbPlan_code p hε hd hb' _ _) S
+
+/-- GaussianNB for the output LAW, relative to the measurability of the plan's continuations (`Plan.Meas`, for any
+σ-algebra on the releases) — which is what remains open for this plan, see `gnb_plan_meas_full` -/
+theorem gnb_fit_dp_law_partial [MeasurableSpace (GnbRelease ℝ)] (p : GnbParams ℝ) (hε : 0 < p.eps) (hd : 0 < p.d)
+    (hb : ∀ j, nth p.lo j ≤ nth p.hi j) (hb' : ∀ j, j < p.d → nth p.lo j < nth p.hi j) (pre post : DS ℝ)
+    (r r' : Rec ℝ)
+    (hocc : ((List.range p.K).map fun c => (pre ++ r :: post).any (fun q => q.y == c)) =
+      ((List.range p.K).map fun c => (pre ++ r' :: post).any (fun q => q.y == c)))
+    (hmeas : (gnbPlan p).Meas codeKernel) (S : Set (GnbRelease ℝ)) (hS : MeasurableSet S) :
+    (gnbPlan p).law codeKernel (pre ++ r :: post) S ≤
+      ENNReal.ofReal (Real.exp ((if r.y = r'.y then 1 else 2) * p.eps)) *
+        (gnbPlan p).law codeKernel (pre ++ r' :: post) S :=
+  PM.plan_dp_of_lossLeW _ _ _ _ codeKernel_metricDPW _ _ _ _
+    ((lossLeW_scalar _ _ _ _).mpr (gnb_privloss p hε.le hd hb pre post r r'))
+    (probesAgree_gnbPlan p _ _ hocc) (callsSatAt_gnbPlan_code p hε hd hb' _ _) hmeas S hS
+
+/-- NOT proved: there is a σ-algebra on the GaussianNB releases (with measurable points) for which the plan's
+continuations are measurable for the kernel family `codeKernel`.  (For an ARBITRARY family `M` the statement is false:
+the bounds and the sensitivity of the per-feature invocations depend on earlier noisy outputs, so `M` would have to be
+measurable in the invocation's parameters as well — unlike StandardScaler, where `scaler_plan_meas` holds for every
+family.)  Open obstacles: measurability of the count-repair post-processing `repairCounts` (`argsort` + a fuel-bounded
+loop on lists of reals), of `forList` over a list whose length depends on a noisy output, and of the Laplace kernels
+jointly in (scale, bounds, input) -/
+def gnb_plan_meas_full : Prop :=
+  ∃ _ : MeasurableSpace (GnbRelease ℝ), (∀ x : GnbRelease ℝ, MeasurableSet ({x} : Set (GnbRelease ℝ))) ∧
+    ∀ p : GnbParams ℝ, (gnbPlan p).Meas codeKernel
+
+/-- **KMeans.fit is 2ε-DP** (a record touches ≤ 2 clusters per iteration), set-function semantics, every metric-DP
+family.  `hocc`: the cluster-occupancy probes (which clusters are non-empty, for every value of the noisy centres)
+are the same for both datasets — the code branches on it without noise, so it is part of the public shape -/
+theorem kmeans_fit_dp (p : KmParams ℝ) (hε : 0 < p.eps) (hd : 0 < p.d) (hb : ∀ j, nth p.lo j ≤ nth p.hi j)
+    (hb' : ∀ j, j < p.d → nth p.lo j < nth p.hi j) (pre post : DS ℝ) (r r' : Rec ℝ)
+    (hocc : ∀ cs, ((List.range p.k).map fun c => (pre ++ r :: post).any (fun q => assign p.lo p.hi cs q == c)) =
+      ((List.range p.k).map fun c => (pre ++ r' :: post).any (fun q => assign p.lo p.hi cs q == c)))
+    (M : MechCall ℝ → ℝ → Measure ℝ) (hM : MetricDP PosCall M) (S : Set (List (List ℝ))) :
+    (kmPlan p).lawOn M (pre ++ r :: post) S ≤
+      ENNReal.ofReal (Real.exp (2 * p.eps)) * (kmPlan p).lawOn M (pre ++ r' :: post) S :=
+  PM.lawOn_dp_of_lossLe _ M hM _ _ _ _ (kmeans_privloss p hε.le hd hb pre post r r')
+    (probesAgree_kmPlan p _ _ hocc) (callsSat_kmPlan p hε hd hb') S
+
+/-- … ε-DP, and no probe hypothesis at all, when the replaced record stays in its cluster whatever the centres are -/
+theorem kmeans_fit_dp_stay (p : KmParams ℝ) (hε : 0 < p.eps) (hd : 0 < p.d) (hb : ∀ j, nth p.lo j ≤ nth p.hi j)
+    (hb' : ∀ j, j < p.d → nth p.lo j < nth p.hi j) (pre post : DS ℝ) (r r' : Rec ℝ)
+    (hsame : ∀ cs, assign p.lo p.hi cs r = assign p.lo p.hi cs r')
+    (M : MechCall ℝ → ℝ → Measure ℝ) (hM : MetricDP PosCall M) (S : Set (List (List ℝ))) :
+    (kmPlan p).lawOn M (pre ++ r :: post) S ≤
+      ENNReal.ofReal (Real.exp p.eps) * (kmPlan p).lawOn M (pre ++ r' :: post) S :=
+  PM.lawOn_dp_of_lossLe _ M hM _ _ _ _ (kmeans_privloss_stay p hε.le hd hb pre post r r' hsame)
+    (probesAgree_kmPlan p _ _ (fun cs => by simp [List.any_append, hsame cs])) (callsSat_kmPlan p hε hd hb') S
+
+/-- KMeans with NO hypothesis on the mechanisms (`codeKernel`: geometric counts, truncated-Laplace sums) -/
+theorem kmeans_fit_dp_code (p : KmParams ℝ) (hε : 0 < p.eps) (hd : 0 < p.d) (hb : ∀ j, nth p.lo j ≤ nth p.hi j)
+    (hb' : ∀ j, j < p.d → nth p.lo j < nth p.hi j) (pre post : DS ℝ) (r r' : Rec ℝ)
+    (hocc : ∀ cs, ((List.range p.k).map fun c => (pre ++ r :: post).any (fun q => assign p.lo p.hi cs q == c)) =
+      ((List.range p.k).map fun c => (pre ++ r' :: post).any (fun q => assign p.lo p.hi cs q == c)))
+    (S : Set (List (List ℝ))) :
+    (kmPlan p).lawOn codeKernel (pre ++ r :: post) S ≤
+      ENNReal.ofReal (Real.exp (2 * p.eps)) * (kmPlan p).lawOn codeKernel (pre ++ r' :: post) S :=
+  PM.lawOn_dp_of_lossLeW _ _ _ _ codeKernel_metricDPW _ _ _ _
+    ((lossLeW_scalar _ _ _ _).mpr (kmeans_privloss p hε.le hd hb pre post r r'))
+    (probesAgree_kmPlan p _ _ hocc) (callsSatAt_kmPlan_code p hε hd hb' _ _) S
+
+/-- **LinearRegression.fit is ε-DP** (no probe: no side condition on the datasets), set-function semantics, every
+metric-DP family; strict bounds make every configured sensitivity positive -/
+theorem linreg_fit_dp (p : LinParams ℝ) (hε : 0 < p.eps) (hd : 0 < p.d) (ht : 0 < p.t)
+    (hb : ∀ j, nth p.lo j ≤ nth p.hi j) (hby : ∀ i, nth p.ylo i ≤ nth p.yhi i)
+    (hb' : ∀ j, j < p.d → nth p.lo j < nth p.hi j) (hby' : ∀ i, i < p.t → nth p.ylo i < nth p.yhi i)
+    (h1d : p.y1d = true → p.t = 1) (pre post : DS ℝ) (r r' : Rec ℝ) (hn : p.n = pre.length + 1 + post.length)
+    (M : MechCall ℝ → ℝ → Measure ℝ) (hM : MetricDP PosCall M)
+    (S : Set ((List ℝ × List ℝ) × (List ℝ × List ℝ × List ℝ))) :
+    (linPlan p).lawOn M (pre ++ r :: post) S ≤
+      ENNReal.ofReal (Real.exp p.eps) * (linPlan p).lawOn M (pre ++ r' :: post) S :=
+  PM.lawOn_dp_of_lossLe _ M hM _ _ _ _ (linreg_privloss p hε.le hd ht hb hby h1d pre post r r' hn)
+    (probesAgree_of_probeFree _ _ _ (linPlan_probeFree p)) (callsSat_linPlan p hε hd ht (by omega) hb' hby') S
+
+/-- … with the Laplace family (`lapCodeKernel`: "Laplace" ↦ `lapKernel`, "LaplaceTruncated"/"LaplaceFolded" ↦ the
+truncated Laplace law): no hypothesis on the mechanisms -/
+theorem linreg_fit_dp_laplace (p : LinParams ℝ) (hε : 0 < p.eps) (hd : 0 < p.d) (ht : 0 < p.t)
+    (hb : ∀ j, nth p.lo j ≤ nth p.hi j) (hby : ∀ i, nth p.ylo i ≤ nth p.yhi i)
+    (hb' : ∀ j, j < p.d → nth p.lo j < nth p.hi j) (hby' : ∀ i, i < p.t → nth p.ylo i < nth p.yhi i)
+    (h1d : p.y1d = true → p.t = 1) (pre post : DS ℝ) (r r' : Rec ℝ) (hn : p.n = pre.length + 1 + post.length)
+    (S : Set ((List ℝ × List ℝ) × (List ℝ × List ℝ × List ℝ))) :
+    (linPlan p).lawOn lapCodeKernel (pre ++ r :: post) S ≤
+      ENNReal.ofReal (Real.exp p.eps) * (linPlan p).lawOn lapCodeKernel (pre ++ r' :: post) S :=
+  linreg_fit_dp p hε hd ht hb hby hb' hby' h1d pre post r r' hn lapCodeKernel lapCodeKernel_metricDP S
+
+/-- **RandomForest / DecisionTree fit is 2ε-DP**, set-function semantics, relative to the vector metric-DP of the
+PermuteAndFlip kernel in the mechanism's own convention (`hPF`: utility vectors with max_j|u_j−u′_j| ≤ sensitivity give
+laws within exp(ε·(max increase + max decrease)/sensitivity) — exponential / permute-and-flip mechanism, monotonic
+utility; hypothesis, not proved here) and to agreeing leaf-occupancy probes (`hocc`, public shape as for KMeans) -/
+theorem forest_fit_dp (p : ForestParams ℝ) (hε : 0 ≤ p.eps) (pre post : DS ℝ) (r r' : Rec ℝ)
+    (hn : pre.length + 1 + post.length ≤ p.n)
+    (hocc : ∀ ti ∈ p.trees.zipIdx,
+      (ti.1.leaves.map fun l => (rowsOf p ti.2 (pre ++ r :: post)).any
+        (fun q => ti.1.leafOf (clipRow p.lo p.hi q) == l)) =
+      (ti.1.leaves.map fun l => (rowsOf p ti.2 (pre ++ r' :: post)).any
+        (fun q => ti.1.leafOf (clipRow p.lo p.hi q) == l)))
+    (M : MechCall ℝ → ℝ → Measure ℝ)
+    (hPF : MetricDPW (relDispV p.n p.K) (wtDispV p.n p.K) (fun c _ _ => c = pfCall p) M)
+    (S : Set (List (List (Nat × ℝ)))) :
+    (forestPlan p).lawOn M (pre ++ r :: post) S ≤
+      ENNReal.ofReal (Real.exp (2 * p.eps)) * (forestPlan p).lawOn M (pre ++ r' :: post) S :=
+  PM.lawOn_dp_of_lossLeW _ _ _ M hPF _ _ _ _ (forest_privloss p hε pre post r r' hn)
+    (probesAgree_forestPlan p _ _ hocc) (callsSatAt_forestPlan p _ _) S
+
+/-- … and the two output laws are within factor e⁰ = 1 of each other when the replaced record keeps its leaf and its
+class in every tree -/
+theorem forest_fit_dp_stay (p : ForestParams ℝ) (hε : 0 ≤ p.eps) (pre post : DS ℝ) (r r' : Rec ℝ)
+    (hn : pre.length + 1 + post.length ≤ p.n)
+    (hsame : ∀ tr ∈ p.trees, tr.leafOf (clipRow p.lo p.hi r) = tr.leafOf (clipRow p.lo p.hi r') ∧ r.y = r'.y)
+    (hocc : ∀ ti ∈ p.trees.zipIdx,
+      (ti.1.leaves.map fun l => (rowsOf p ti.2 (pre ++ r :: post)).any
+        (fun q => ti.1.leafOf (clipRow p.lo p.hi q) == l)) =
+      (ti.1.leaves.map fun l => (rowsOf p ti.2 (pre ++ r' :: post)).any
+        (fun q => ti.1.leafOf (clipRow p.lo p.hi q) == l)))
+    (M : MechCall ℝ → ℝ → Measure ℝ)
+    (hPF : MetricDPW (relDispV p.n p.K) (wtDispV p.n p.K) (fun c _ _ => c = pfCall p) M)
+    (S : Set (List (List (Nat × ℝ)))) :
+    (forestPlan p).lawOn M (pre ++ r :: post) S ≤
+      ENNReal.ofReal (Real.exp 0) * (forestPlan p).lawOn M (pre ++ r' :: post) S :=
+  PM.lawOn_dp_of_lossLeW _ _ _ M hPF _ _ _ _ (forest_privloss_stay p hε pre post r r' hn hsame)
+    (probesAgree_forestPlan p _ _ hocc) (callsSatAt_forestPlan p _ _) S
+
+/-- non-vacuity of `hPF`: a constant kernel satisfies it when ε ≥ 0 (weights are ≥ 0) -/
+example (p : ForestParams ℝ) (hε : 0 ≤ p.eps) (ν : Measure ℝ) :
+    MetricDPW (relDispV p.n p.K) (wtDispV p.n p.K) (fun c _ _ => c = pfCall p) (fun _ _ => ν) := by
+  rintro c a b rfl _ S _
+  have hw : 0 ≤ wtDispV p.n p.K (pfCall p) a b := by
+    unfold wtDispV
+    rw [isVec_pfCall, if_pos rfl]
+    unfold vecWt
+    simp only
+    split
+    · exact le_refl _
+    · have : (pfCall p).sens = 1 := rfl
+      rw [this]; positivity
+  have : (1 : ENNReal) ≤ ENNReal.ofReal (Real.exp ((pfCall p).eps * wtDispV p.n p.K (pfCall p) a b)) := by
+    rw [← ENNReal.ofReal_one]
+    exact ENNReal.ofReal_le_ofReal (Real.one_le_exp (mul_nonneg hε hw))
+  exact le_mul_of_one_le_left' this
+
+/-- non-vacuity of the hypotheses of `linreg_fit_dp` and of `kmeans_fit_dp_stay` -/
+example : ∃ (p : LinParams ℝ) (pre post : DS ℝ), 0 < p.eps ∧ 0 < p.d ∧ 0 < p.t ∧ (∀ j, nth p.lo j ≤ nth p.hi j) ∧
+    (∀ i, nth p.ylo i ≤ nth p.yhi i) ∧ (∀ j, j < p.d → nth p.lo j < nth p.hi j) ∧
+    (∀ i, i < p.t → nth p.ylo i < nth p.yhi i) ∧ (p.y1d = true → p.t = 1) ∧ p.n = pre.length + 1 + post.length :=
+  ⟨⟨1, [-1], [2], [0], [3], 1, 1, 1, true, true, 0⟩, [], [], by norm_num, by norm_num, by norm_num,
+    by intro j; cases j <;> simp [nth] <;> norm_num, by intro j; cases j <;> simp [nth],
+    by intro j hj; interval_cases j; simp [nth]; norm_num, by intro j hj; interval_cases j; simp [nth],
+    fun _ => rfl, rfl⟩
+example : ∃ (p : KmParams ℝ) (r r' : Rec ℝ), 0 < p.eps ∧ 0 < p.d ∧ (∀ j, nth p.lo j ≤ nth p.hi j) ∧
+    (∀ j, j < p.d → nth p.lo j < nth p.hi j) ∧ r ≠ r' ∧ ∀ cs, assign p.lo p.hi cs r = assign p.lo p.hi cs r' :=
+  ⟨⟨1, [0], [1], 2, 1, 1, [[0]], 0⟩, ⟨[0], 0, []⟩, ⟨[0], 1, []⟩, by norm_num, by norm_num,
+    by intro j; cases j <;> simp [nth], by intro j hj; interval_cases j; simp [nth], by simp, fun _ => rfl⟩
+
+/-- **PCA.fit / covariance_eig is ε-DP**, set-function semantics, relative to the cited sensitivity facts of
+`pca_model_privloss` (`hEig1`, `hEigSum`, `hBing`) and to a metric-DP family (which here includes the Bingham kernel:
+`hM` at the "Bingham" invocations is the guarantee of the Bingham mechanism for its abstract scalar input) -/
+theorem pca_fit_dp (p : PcaParams ℝ) (eig bing : DS ℝ → List ℝ → Nat → ℝ) (hε : 0 < p.eps) (hd : 0 < p.d)
+    (hk : p.k ≤ p.d) (hb : ∀ j, nth p.lo j ≤ nth p.hi j) (hb' : ∀ j, j < p.d → nth p.lo j < nth p.hi j)
+    (pre post : DS ℝ) (r r' : Rec ℝ) (hn : p.n = pre.length + 1 + post.length)
+    (hEig1 : ∀ mean i, |eig (pre ++ r :: post) mean i - eig (pre ++ r' :: post) mean i| ≤ 2)
+    (hEigSum : ∀ mean, ((List.range p.d).map fun i =>
+        |eig (pre ++ r :: post) mean i - eig (pre ++ r' :: post) mean i|).sum ≤ 2)
+    (hBing : ∀ mean i, |bing (pre ++ r :: post) mean i - bing (pre ++ r' :: post) mean i| ≤ 1)
+    (M : MechCall ℝ → ℝ → Measure ℝ) (hM : MetricDP PosCall M) (S : Set (List ℝ × List ℝ)) :
+    (pcaPlan p eig bing).lawOn M (pre ++ r :: post) S ≤
+      ENNReal.ofReal (Real.exp p.eps) * (pcaPlan p eig bing).lawOn M (pre ++ r' :: post) S :=
+  PM.lawOn_dp_of_lossLe _ M hM _ _ _ _
+    (pca_privloss p eig bing hε.le hd hk hb pre post r r' hn hEig1 hEigSum hBing)
+    (probesAgree_of_probeFree _ _ _ (pcaPlan_probeFree p eig bing))
+    (callsSat_pcaPlan p eig bing hε hd (by omega) hb') S
 
 end Compose
 
